@@ -2,9 +2,10 @@ import PybtexModel.Drv.Json
 import PybtexModel.Drv.C03
 import PybtexModel.Drv.C20
 import PybtexModel.Model.Engine
+import PybtexModel.Model.EngineOut
 open Lean
 namespace Pybtex.Drv.C06
-open Pybtex.Engine
+open Pybtex.Engine Pybtex.EnginePaths
 
 def lookupFile (l : List (Str × α)) (p : Str) : Option α := (l.find? fun x => x.1 = p).map (·.2)
 
@@ -37,10 +38,58 @@ def errJ : Engine.Err → Json
 def obsJ (o : SortObs) : Json :=
   arr (o.map fun p => arr [strToJson p.1, match p.2 with | some k => strToJson k | none => Json.null])
 
-def outJ (r : Result) (sorts : List SortObs) (auxErrors : Nat) : Json :=
-  obj [("out", obj [("bbl", strToJson r.bbl), ("reports", arr (r.reports.map C03.reportJ)),
-                    ("printed", strs r.printed), ("aux_errors", nat auxErrors)]),
+def targetJ : Except Unit Target → Json
+  | .error _ => arr [Json.str "TypeError"]
+  | .ok .returned => arr [Json.str "returned"]
+  | .ok (.file n) => arr [Json.str "file", strToJson n]
+
+def outJ (r : Result) (sorts : List SortObs) (auxErrors : Nat) (extra : List (String × Json) := []) : Json :=
+  obj [("out", obj ([("bbl", strToJson r.bbl), ("reports", arr (r.reports.map C03.reportJ)),
+                    ("printed", strs r.printed), ("aux_errors", nat auxErrors)] ++ extra)),
        ("spec", obj [("sorts", arr (sorts.map obsJ))])]
+
+def optStr (j : Json) (k : String) : Option Str :=
+  match j.getObjVal? k with
+  | .ok (Json.str s) => some s.toList
+  | _ => none
+
+def optStrJ : Option Str → Json
+  | none => Json.null
+  | some s => strToJson s
+
+/-- `os.path.splitext(p)`, the command line's `.aux` name, `make_bibliography`'s output name -/
+def splitextOp (j : Json) : Except String Json := do
+  let p ← getStr j "p"
+  let r := splitext p
+  pure (obj [("out", obj [("root", strToJson r.1), ("ext", strToJson r.2), ("cli_aux", strToJson (cliAuxName p)),
+    ("bbl", targetJ (outputTarget (some r.1) true)), ("bst", strToJson (bstName p)),
+    ("has_non_dot", Json.bool (metNonDot Gen.osExtsep (p.drop (rfind Gen.osSep p + 1).toNat)))])])
+
+/-- the output side of `format_from_files(…, output_filename, add_output_suffix)` -/
+def targetOp (j : Json) : Except String Json := do
+  let add ← getBool j "add_output_suffix"
+  -- with a `style` the whole call is modelled on an EMPTY file system: the style file cannot be opened, and that error of the
+  -- run comes before anything the output name can raise (`formatFromFilesTo`)
+  if let some style := optStr j "style" then
+    match formatFromFilesTo ⟨fun _ => none, fun _ => none⟩ [] style [] 2 none (optStr j "output_filename") add with
+    | .error (.engine e) => return obj [("out", obj [("target", arr [Json.str "error", arr [(errJ e).getArrVal? 0 |>.toOption.getD Json.null], Json.null])])]
+    | .error _ => return obj [("out", obj [("target", arr [Json.str "TypeError"])])]
+    | .ok (o, _) => return obj [("out", obj [("target", match o.written with | some (n, _) => arr [Json.str "file", strToJson n] | none => arr [Json.str "returned"])])]
+  pure (obj [("out", obj [("target", targetJ (outputTarget (optStr j "output_filename") add))])])
+
+/-- `PybtexCommandLine.run` up to the call of `engine.make_bibliography` -/
+def cliRunOp (j : Json) : Except String Json := do
+  let filename ← getStr j "filename"
+  let lang ← getStr j "style_language"
+  let py ← (← getArr j "pythonic").mapM fun b => match b with
+    | Json.bool x => pure x
+    | _ => throw "bool expected"
+  let o : CliOptions := ⟨lang, optStr j "encoding", optStr j "bib_encoding", optStr j "bst_encoding", optStr j "output_encoding", py⟩
+  match cliRun filename o with
+  | .error (.unknownLanguage l) => pure (obj [("out", obj [("usage", arr [Json.str "unknown-language", strToJson l])])])
+  | .error (.notSupported w) => pure (obj [("out", obj [("usage", arr [Json.str "not-supported", strToJson w])])])
+  | .ok c => pure (obj [("out", obj [("call", arr [Json.str (if c.python then "pybtex" else "pybtex.bibtex"), strToJson c.filename,
+      optStrJ c.bibEncoding, optStrJ c.bstEncoding, optStrJ c.outputEncoding])])])
 
 def parseSrc (j : Json) : Except String Src := do
   let a ← j.getArr?
@@ -81,9 +130,15 @@ def makebib (j : Json) : Except String Json := do
         let f ← j.getObjVal? "bib_format"
         pure (some (⟨← getStr f "suffix", alt⟩ : Engine.Format))
       | _ => pure none
+    -- where the `.bbl` goes (`makeBibliographyTo`), and what the command line called with `cli_name` would open and write
+    let cliJ := match optStr j "cli_name" with
+      | none => []
+      | some n => [("cli_aux", strToJson (cliAuxName n)),
+                   ("cli_written", targetJ (outputTarget (some (splitext (cliAuxName n)).1) true))]
     match makeBibliographyT files top (auxFiles.length + 1) so fmt mc with
     | .error e => pure (obj [("out", obj [("error", errJ e)])])
-    | .ok ((r, sorts), auxReports) => pure (outJ r sorts auxReports.length)
+    | .ok ((r, sorts), auxReports) =>
+      pure (outJ r sorts auxReports.length ([("written", targetJ (outputTarget (some (splitext top).1) true))] ++ cliJ))
   else
     let srcs ← (← getArr j "srcs").mapM parseSrc
     let style ← getStr j "style"
@@ -106,6 +161,7 @@ def makebib (j : Json) : Except String Json := do
       | .error e => pure (obj [("out", obj [("error", errJ e)])])
       | .ok (r, sorts) => pure (outJ r sorts 0)
 
-def handlers : List (String × (Json → Except String Json)) := [("makebib", makebib)]
+def handlers : List (String × (Json → Except String Json)) :=
+  [("makebib", makebib), ("c06_splitext", splitextOp), ("c06_target", targetOp), ("c06_clirun", cliRunOp)]
 
 end Pybtex.Drv.C06
